@@ -284,35 +284,40 @@ func HarnessC20Main() {
 		status = rmain()
 	}()
 
-	// expected outcome, step by step (independent restatement of the start-up sequence)
+	// expected outcome.  The statement does not fix the order in which start-up steps are taken,
+	// so with several faults at once any one of them may be the one that is reported.
+	brokerFailed := anyContains(printfMsgs, "setting up comms")
+	logFault := cfgLogFile != "" && failOpenLog
+	ctrlIFault := cfgPrintCtrlI && (cfgInsertFile == "" || failConvert)
+	runFaults := !cfgPrintCtrlI && (failTTY || failSize || failRaw || cfgIcanhazip && failIcan || failHsrv)
+	causeNamed := strings.Contains(exitMsg, "CAUSE-OF-FAILURE") || anyContains(termOut, "CAUSE-OF-FAILURE") || anyContains(printfMsgs, "CAUSE-OF-FAILURE")
 	switch {
 	case cfgPrintTemplate:
 		verifAssert((status == 0) == !failWriteStdout, "C20.print-template-status")
 		verifAssert(!rawEntered, "C20.informational-flags-leave-the-terminal-alone")
-	case anyContains(printfMsgs, "setting up comms"):
+	case brokerFailed:
 		// the entropy source failed inside iobroker.New (engine fork): clean non-zero exit
-		verifAssert(status != 0 && !rawEntered, "C20.broker-setup-failure-is-clean")
-	case cfgLogFile != "" && failOpenLog:
-		verifAssert(status != 0, "C20.unopenable-log-file-status")
-		verifAssert(strings.Contains(exitMsg, "CAUSE-OF-FAILURE"), "C20.unopenable-log-file-cause")
-		verifAssert(strings.Contains(exitMsg, "the.log"), "C20.unopenable-log-file-named")
-	case cfgPrintCtrlI:
-		if cfgInsertFile == "" || failConvert {
-			verifAssert(status != 0 && exitMsg != "", "C20.missing-ctrl-i-source-reported")
-			if cfgInsertFile != "" {
-				verifAssert(strings.Contains(exitMsg, "CAUSE-OF-FAILURE"), "C20.ctrl-i-cause-named")
-			}
-		} else {
-			verifAssert(status == 0, "C20.print-ctrl-i-ok")
-		}
+		verifAssert(status != 0, "C20.broker-setup-failure-is-clean")
+	case cfgPrintCtrlI && logFault && !ctrlIFault:
+		// printing the Ctrl+I payload does not need the log file: failing on it or not are both fine
 		verifAssert(!rawEntered, "C20.informational-flags-leave-the-terminal-alone")
-	case failTTY || failSize || failRaw:
-		verifAssert(status != 0, "C20.no-terminal-is-a-clean-failure")
-		verifAssert(strings.Contains(exitMsg, "CAUSE-OF-FAILURE"), "C20.terminal-failure-cause-named")
-	case cfgIcanhazip && failIcan:
-		verifAssert(status != 0 && anyContains(termOut, "CAUSE-OF-FAILURE"), "C20.icanhazip-failure-reported")
-	case failHsrv:
-		verifAssert(status != 0 && anyContains(termOut, "CAUSE-OF-FAILURE"), "C20.listener-or-certificate-failure-reported")
+	case logFault || ctrlIFault || runFaults:
+		verifAssert(status != 0, "C20.startup-failure-is-nonzero")
+		if ctrlIFault && cfgInsertFile == "" {
+			// "no source configured" carries no underlying error; with a log fault as well either may be reported
+			verifAssert(exitMsg != "", "C20.missing-ctrl-i-source-reported")
+		} else {
+			verifAssert(causeNamed, "C20.startup-failure-names-a-cause")
+		}
+		if logFault && !ctrlIFault && !runFaults {
+			verifAssert(strings.Contains(exitMsg, "the.log"), "C20.unopenable-log-file-named")
+		}
+		if cfgPrintCtrlI {
+			verifAssert(!rawEntered, "C20.informational-flags-leave-the-terminal-alone")
+		}
+	case cfgPrintCtrlI:
+		verifAssert(status == 0, "C20.print-ctrl-i-ok")
+		verifAssert(!rawEntered, "C20.informational-flags-leave-the-terminal-alone")
 	default:
 		ok := groupClass != 4
 		if verifCanary() {
@@ -324,8 +329,11 @@ func HarnessC20Main() {
 			verifAssert(anyContains(termOut, "CAUSE-OF-FAILURE"), "C20.fatal-error-reported")
 		}
 	}
-	if cfgLogFile != "" && !cfgPrintTemplate && !anyContains(printfMsgs, "setting up comms") {
+	if logOpened > 0 {
 		verifAssert(logOpened == 1 && logOpenFlags == os.O_CREATE|os.O_WRONLY|os.O_APPEND && logOpenPerm == 0o600, "C11.log-file-append-only-owner-only")
+	}
+	if cfgLogFile != "" && status == 0 && !cfgPrintTemplate && !cfgPrintCtrlI {
+		verifAssert(logOpened == 1, "C11.log-file-opened-when-configured")
 	}
 	// whenever raw mode was entered, the terminal is put back before the program ends
 	if rawEntered {
